@@ -30,6 +30,7 @@ type solver struct {
 	out   *bufio.Reader
 	stats solverStats
 	log   io.Writer // optional transcript
+	killed bool     // the watchdog killed the process
 	tmoMs int
 	last  string
 }
@@ -97,6 +98,9 @@ var slowQueryMs = func() int {
 }()
 
 func (s *solver) send(txt string) {
+	if s.killed {
+		return
+	}
 	if slowQueryMs > 0 {
 		s.last += txt
 		if len(s.last) > 4000 {
@@ -120,6 +124,10 @@ func (s *solver) readSexp() string {
 	for {
 		line, err := s.out.ReadString('\n')
 		if err != nil {
+			if s.killed {
+				// the watchdog of checkSat killed a solver that ignored its soft time-out
+				panic(pathEnd{"unknown", "solver killed after the hard time limit"})
+			}
 			panic(engineFault{"solver died: " + err.Error() + " partial=" + sb.String()})
 		}
 		trim := strings.TrimSpace(line)
@@ -151,7 +159,21 @@ func (s *solver) readSexp() string {
 func (s *solver) checkSat() string {
 	t0 := time.Now()
 	s.send("(check-sat)\n")
+	// z3 4.8.12 does not always honour -t (preprocessing of some queries never checks the
+	// limit): a watchdog kills the process after twice the soft limit; the path ends "unknown"
+	// and the worker starts a new solver for its next path.
+	var dog *time.Timer
+	if s.tmoMs > 0 && s.cmd != nil {
+		cmd := s.cmd
+		dog = time.AfterFunc(time.Duration(2*s.tmoMs+10000)*time.Millisecond, func() {
+			s.killed = true
+			cmd.Process.Kill()
+		})
+	}
 	r := s.readSexp()
+	if dog != nil {
+		dog.Stop()
+	}
 	s.stats.duration += time.Since(t0)
 	s.stats.queries++
 	if slowQueryMs > 0 && time.Since(t0) > time.Duration(slowQueryMs)*time.Millisecond {
